@@ -47,7 +47,8 @@ Judge(e) ==
                    \A r, s \in accepted : (r # s /\ reqs[r].arg = reqs[s].arg) => seedcs.latest = Nil /\ FALSE >>,
         <<"C05", e.faulted =>
                    ( Cardinality(rids) = 1
-                     /\ C05_Round(e.cfg, seedcs, reqs[1], resps[1], final, [i \in DOMAIN e.follow |-> [req |-> e.follow[i].req, resp |-> e.follow[i].resp]])
+                     /\ C05_Round(e.cfg, seedcs, reqs[1], resps[1], final, [i \in DOMAIN e.follow |-> [req |-> e.follow[i].req, resp |-> e.follow[i].resp]],
+                                 e.iofault.at > 0 \/ \E i \in DOMAIN e.log : e.log[i][2] = "FAIL-after-commit")
                      /\ e.other = e.other0 ) >>,
         <<"C07", (~e.faulted) =>
                    /\ seedcs.versions \subseteq final.versions
